@@ -120,6 +120,7 @@ def check_c19(run: Run, prog: Program) -> None:
     from geolint import indexing
 
     run.stats["index_tuples"] = indexing.rule_E13(run, prog, max_len=4 if run.tier == "thorough" else 3)
+    run.stats["index_type_cases_total"] = indexing.rule_E15(run, prog)
     run.floor("super() call sites", n1, 30)
     run.floor("operator presence obligations", n3, 50)
     if not any(o.rule == "E3.T" and o.verdict == UNDECIDED for o in run.obligations):
